@@ -1202,3 +1202,122 @@ func init() {
 		c.Clients = append(c.Clients, bk)
 	})
 }
+
+// withCCrashArm wraps a crash-arm generator: a share of the runs crashes a database that several clients were
+// using at the same time (arm "ccrash").
+func withCCrashArm(prop string, share float64, conc func(c *Case, rng *vrt.Rand, tier string)) {
+	seq := generators[prop]
+	generators[prop] = func(c *Case, rng *vrt.Rand, tier string) func(r *Runner, i int) *Op {
+		if rng.Chance(share) {
+			c.Arm = "ccrash"
+			c.Sched = genPolicy(rng)
+			c.Cfg = concConfig(rng)
+			conc(c, rng, tier)
+			c.Knobs = map[string]int{"ccpos": 100}
+			if tier == "thorough" {
+				c.Knobs["ccpos"] = 400
+			}
+			return nil
+		}
+		return seq(c, rng, tier)
+	}
+}
+
+// ccPrograms generates client programs for the ccrash arm from weights over put/del/get/sync/batch.
+func ccPrograms(rng *vrt.Rand, keys [][]byte, tag *uint32, clients int, w map[string]int, maxOps int) [][]Op {
+	kinds := []string{"put", "del", "get", "sync", "batch", "yield"}
+	ws := make([]int, len(kinds))
+	for i, k := range kinds {
+		ws[i] = w[k]
+	}
+	out := make([][]Op, clients)
+	total := 0
+	for ci := range out {
+		m := rng.Range(1, maxOps)
+		for j := 0; j < m && total < 22; j++ {
+			k := keys[rng.Intn(len(keys))]
+			kind := kinds[rng.Pick(ws)]
+			op := Op{K: kind}
+			switch kind {
+			case "put":
+				op.Key, op.Val = k, smallVal(rng, tag)
+				total++
+			case "del":
+				op.Key = k
+				total++
+			case "get":
+				op.Key = k
+			case "batch":
+				op.Flag = rng.Chance(0.3)
+				nsub := rng.Range(1, 5)
+				if rng.Chance(0.15) {
+					nsub = rng.Range(6, 12)
+				}
+				for b := 0; b < nsub; b++ {
+					bk := keys[rng.Intn(len(keys))]
+					switch x := rng.Intn(10); {
+					case x < 6:
+						op.Sub = append(op.Sub, Op{K: "bput", Key: bk, Val: smallVal(rng, tag)})
+					case x < 8:
+						op.Sub = append(op.Sub, Op{K: "bdel", Key: bk})
+					case x < 9:
+						op.Sub = append(op.Sub, Op{K: "bget", Key: bk})
+					default:
+						op.Sub = append(op.Sub, Op{K: "yield"})
+					}
+				}
+				total++
+			}
+			out[ci] = append(out[ci], op)
+		}
+	}
+	return out
+}
+
+func init() {
+	// C03(b): power loss and process crashes under concurrent writers
+	withCCrashArm("C03", 0.2, func(c *Case, rng *vrt.Rand, tier string) {
+		crashBudget(c, rng, tier, true)
+		var tag uint32
+		keys := genKeys(rng, rng.Range(1, 4))
+		c.Setup = genSetup(rng, keys, &tag)
+		w := map[string]int{"put": 6, "del": 2, "get": 1, "sync": 1, "yield": 1}
+		if rng.Chance(0.25) {
+			w["batch"] = 2
+		}
+		c.Clients = ccPrograms(rng, keys, &tag, rng.Range(2, 4), w, 6)
+		if rng.Chance(0.2) {
+			c.Clients = append(c.Clients, []Op{{K: "yield"}, {K: "merge"}})
+		}
+	})
+	// C04(b): batches committed by several clients, crashed anywhere
+	withCCrashArm("C04", 0.2, func(c *Case, rng *vrt.Rand, tier string) {
+		crashBudget(c, rng, tier, true)
+		var tag uint32
+		keys := genKeys(rng, rng.Range(2, 5))
+		c.Setup = genSetup(rng, keys, &tag)
+		w := map[string]int{"put": 2, "del": 1, "sync": 1, "batch": 6, "yield": 1}
+		c.Clients = ccPrograms(rng, keys, &tag, rng.Range(2, 3), w, 5)
+	})
+	// C07(b): the process dies while Merge runs next to writers
+	withCCrashArm("C07", 0.2, func(c *Case, rng *vrt.Rand, tier string) {
+		crashBudget(c, rng, tier, false)
+		var tag uint32
+		keys := genKeys(rng, rng.Range(2, 5))
+		c.Setup = nil
+		for _, k := range keys { // a history worth merging
+			for j := 0; j < rng.Range(1, 3); j++ {
+				c.Setup = append(c.Setup, Op{K: "put", Key: k, Val: smallVal(rng, &tag)})
+			}
+			if rng.Chance(0.2) {
+				c.Setup = append(c.Setup, Op{K: "del", Key: k})
+			}
+		}
+		w := map[string]int{"put": 5, "del": 2, "get": 1, "yield": 2}
+		if rng.Chance(0.3) {
+			w["batch"] = 2
+		}
+		c.Clients = ccPrograms(rng, keys, &tag, rng.Range(1, 3), w, 5)
+		c.Clients = append(c.Clients, []Op{{K: "merge"}})
+	})
+}
